@@ -704,8 +704,13 @@ def analyse(case, used=None):
     """Returns (msg | None, info dict).  Raises Discard."""
     used = set() if used is None else used
     info = {"shrunk": 0, "relaxable": 0, "classes": []}
-    case = tuned(case)
+    t = tuned(case)
+    if t is not case:
+        info["classes"].append("distance_tuned_to_cj_limit")
+    case = t
     layout = case["layout"]
+    if len(layout["mems"]) > 1:
+        info["classes"].append("two_images")
     objects = expand(case)
     model = legalise(objects, layout)
     if case.get("flags", {}).get("no_ximage_relax"):
@@ -857,6 +862,11 @@ def _validate_used(used):
 
 
 def classify(case, msg):
+    kid = _classify(case, msg)
+    return None if kid in _assume_fixed() else kid
+
+
+def _classify(case, msg):
     if "c_source" in case:
         if "relaxed link raised AssertionError" in msg and "[data_instructions.py:calc]" in msg and case.get("same_mem"):
             return KF_ALIGN
